@@ -795,36 +795,44 @@ Proof.
   change (vzero (S n)) with (0 :: vzero n). rewrite vdot_cons, IH. lra.
 Qed.
 
-Lemma xsum_lin cn Tref m T P : xsum (lin_H cn Tref) m T P == lin_Cn cn m * (T - Tref).
+Lemma xsum_lin c Tref m T P : xsum (lin_H c Tref) m T P == lin_Cn c m * (T - Tref) + lin_L c m.
 Proof.
   induction m as [|pv m IH]; [simpl; lra|].
-  rewrite xsum_cons. unfold lin_Cn. cbn [fold_right]. fold (lin_Cn cn m). rewrite IH. unfold lin_H. lra.
+  rewrite xsum_cons. unfold lin_Cn, lin_L. cbn [fold_right]. fold (lin_Cn c m). fold (lin_L c m).
+  rewrite IH. unfold lin_H. lra.
 Qed.
 
-Lemma lin_solve_value cn Tref m h Tg P T' :
-  lin_solve cn Tref m h Tg P = Ok T' ->
-  ~ lin_Cn cn m == 0 /\ T' == Tg + (h - lin_Cn cn m * (Tg - Tref)) / lin_Cn cn m.
+Lemma lin_solve_value c Tref m h Tg P T' :
+  lin_solve c Tref m h Tg P = Ok T' ->
+  ~ lin_Cn c m == 0 /\ T' == Tg + (h - (lin_Cn c m * (Tg - Tref) + lin_L c m)) / lin_Cn c m.
 Proof.
   unfold lin_solve, iter_T_at_HP, refresh. simpl Nat.eqb. cbv iota.
-  destruct (qzerob (lin_Cn cn m)) eqn:Z; [discriminate|]. cbn [bind fst]. intros E; injection E as <-.
+  destruct (qzerob (lin_Cn c m)) eqn:Z; [discriminate|]. cbn [bind fst]. intros E; injection E as <-.
   apply qzerob_false in Z. split; [exact Z|]. rewrite xsum_lin. reflexivity.
 Qed.
 
-Lemma lin_contracts cn hf Tref : contracts (lin_oracles cn hf Tref).
+Lemma vdot_nil_l v : vdot [] v == 0.
+Proof. reflexivity. Qed.
+
+Lemma swapcase_gas p : (swapcase p =? 3)%nat = (p =? 3)%nat.
+Proof. destruct p as [|[|[|[|[|[|p]]]]]]; reflexivity. Qed.
+
+Lemma lin_contracts c hf Tref : contracts (lin_oracles c hf Tref).
 Proof.
   constructor; cbn [Hmix Smix solveH solveS lin_oracles].
-  - intros p v k T P Hk. unfold lin_H. rewrite <- (vdot_vdivs cn v k Hk). lra.
+  - intros p v k T P Hk. unfold lin_H.
+    rewrite <- (vdot_vdivs (cn_of c p) v k Hk), <- (vdot_vdivs (lat_of c p) v k Hk). lra.
   - intros p v k T P Hk. lra.
-  - intros p n T P. unfold lin_H. rewrite vdot_vzero. lra.
-  - intros p v T P. reflexivity.
+  - intros p n T P. unfold lin_H. rewrite !vdot_vzero. lra.
+  - intros p v T P. unfold lin_H, cn_of, lat_of. rewrite swapcase_gas. reflexivity.
   - intros m x Tg P T' S. apply lin_solve_value in S. destruct S as [Z ET].
     rewrite xsum_lin, ET. field. exact Z.
   - intros m x Tg P T' S. discriminate.
 Qed.
 
-Lemma lin_solve_fix cn Tref :
-  forall m x T P, ~ lin_Cn cn m == 0 -> xsum (lin_H cn Tref) m T P == x ->
-  exists T', lin_solve cn Tref m x T P = Ok T' /\ T' == T.
+Lemma lin_solve_fix c Tref :
+  forall m x T P, ~ lin_Cn c m == 0 -> xsum (lin_H c Tref) m T P == x ->
+  exists T', lin_solve c Tref m x T P = Ok T' /\ T' == T.
 Proof.
   intros m x T P Z X. unfold lin_solve, iter_T_at_HP, refresh. simpl Nat.eqb. cbv iota.
   pose proof Z as Z'. apply qzerob_false in Z'. rewrite Z'. cbn [bind fst].
@@ -902,12 +910,12 @@ Proof.
 Qed.
 
 (* the stub: closed statement, no hypotheses on the oracles *)
-Lemma mix_energy_stub_lemma cn hf Tref st r others Q0 st' ins s' :
+Lemma mix_energy_stub_lemma c hf Tref st r others Q0 st' ins s' :
   Forall wfs st ->
-  mix_from (lin_oracles cn hf Tref) st r others Q0 = Ok st' ->
+  mix_from (lin_oracles c hf Tref) st r others Q0 = Ok st' ->
   streams_of st others <> [] ->
   sget_all st (streams_of st others) = Ok ins ->
   sget st' r = Ok s' ->
   ~ total s' == 0 ->
-  getH (lin_oracles cn hf Tref) s' == qsum (map (getH (lin_oracles cn hf Tref)) ins) + (Q0 + heats others).
+  getH (lin_oracles c hf Tref) s' == qsum (map (getH (lin_oracles c hf Tref)) ins) + (Q0 + heats others).
 Proof. intros W. apply mix_energy_lemma; auto. apply lin_contracts. Qed.
